@@ -449,14 +449,15 @@ arguments the generated `shouldSwitchSelectedPair` equals the rule `cldHandleReq
 generated `needsToCheckPriorityOnNominated` equals `needsPrioCheck`, and the generated
 `shouldAcceptNomination` decision equals `acceptsNomination`. -/
 theorem C03_switch_rule_code :
-    (∀ (hasSelected samePair hasValue needsPrio : Bool) (sp pp : UInt64),
-      IceGen.controlledSelector_shouldSwitchSelectedPair hasSelected samePair hasValue needsPrio sp pp =
-      shouldSwitch hasSelected samePair hasValue needsPrio sp.toNat pp.toNat) ∧
+    (∀ (hasSelected samePair hasValue hasLast needsPrio : Bool) (sp pp : UInt64),
+      IceGen.controlledSelector_shouldSwitchSelectedPair hasSelected samePair hasValue hasLast needsPrio sp pp =
+      shouldSwitch hasSelected samePair hasValue hasLast needsPrio sp.toNat pp.toNat) ∧
     (∀ (a : Agent) (id : Nat) (m : Msg) (p : Pair),
       cldSw a id m p =
       match a.selected.bind a.pairById with
-      | none => shouldSwitch false false m.nom.isSome (needsPrioCheck a.cfg) 0 (a.pairPrio p)
-      | some sp => shouldSwitch true (sp.id == id) m.nom.isSome (needsPrioCheck a.cfg) (a.pairPrio sp) (a.pairPrio p)) ∧
+      | none => shouldSwitch false false m.nom.isSome a.lastNomination.isSome (needsPrioCheck a.cfg) 0 (a.pairPrio p)
+      | some sp => shouldSwitch true (sp.id == id) m.nom.isSome a.lastNomination.isSome (needsPrioCheck a.cfg)
+          (a.pairPrio sp) (a.pairPrio p)) ∧
     (∀ cfg : Config, IceGen.agent_needsToCheckPriorityOnNominated cfg.lite cfg.useCandCheckPriority = needsPrioCheck cfg) ∧
     (∀ (a : Agent) (m : Msg) (v last : UInt32), (m.nom = none ∨ m.nom = some v.toNat) →
       (a.lastNomination = none ∨ a.lastNomination = some last.toNat) →
@@ -464,7 +465,9 @@ theorem C03_switch_rule_code :
       acceptsNomination a m) :=
   ⟨shouldSwitch_gen_eq_model, cldSw_eq_shouldSwitch, needsPrio_gen_eq_model, shouldAccept_gen_eq_model⟩
 
-example : IceGen.controlledSelector_shouldSwitchSelectedPair true false false true 5 7 = true ∧
-    IceGen.controlledSelector_shouldSwitchSelectedPair true false false true 7 7 = false := by decide
+example : IceGen.controlledSelector_shouldSwitchSelectedPair true false false false true 5 7 = true ∧
+    IceGen.controlledSelector_shouldSwitchSelectedPair true false false false true 7 7 = false ∧
+    -- once a nomination value has been accepted a value-less nomination no longer moves the selection (fix of F29)
+    IceGen.controlledSelector_shouldSwitchSelectedPair true false false true true 5 7 = false := by decide
 
 end IceProps.C03
